@@ -19,6 +19,10 @@ Decided:
   R11.4  long-time curves: t_s = H^2 / (9 alpha) with alpha = k / rhoCp, times = exp(log_time) * t_s, one
          curve and one radius stored per height; boundary condition MIFT, 8 unequal segments, equivalent
          solver are the defaults and no caller overrides them; the equivalent height is B / (B/H)
+  R11.6  long-time axis: walking back from GFunction.log_time through every store, constructor parameter and call
+         site, the axis is handed over unchanged (no sort / slice / arithmetic / in-place change) and originates
+         only from eskilson_log_times() (or from the object's own gFunction.log_time in the rebuild); that function
+         returns one literal table whose entries are strictly increasing - the premise R11.1 builds on
 """
 from __future__ import annotations
 
@@ -51,7 +55,69 @@ def check(prog: Program, tier: str) -> Result:
     _sources(prog, res)
     _longtime(prog, res)
     _interp_table(prog, res)
+    _axis(prog, res)
     return res
+
+
+def _num(e):
+    if isinstance(e, ast.Constant) and isinstance(e.value, (int, float)) and not isinstance(e.value, bool):
+        return float(e.value)
+    if isinstance(e, ast.UnaryOp) and isinstance(e.op, (ast.USub, ast.UAdd)) and isinstance(e.operand, ast.Constant) and isinstance(e.operand.value, (int, float)):
+        return -float(e.operand.value) if isinstance(e.op, ast.USub) else float(e.operand.value)
+    return None
+
+
+def _axis(prog: Program, res: Result):
+    from ..custody import Walk, root_of
+    from ..model import walk_no_nested
+
+    w = Walk(prog)
+    w.from_attr(f"{GF}.GFunction", "log_time")
+    seen = set()
+    for d, f_, n in w.links:
+        if d not in seen:
+            seen.add(d)
+            res.ob("R11.6", f"long-time axis handed over unchanged: {d}", True, prog.loc(f_, n))
+            res.analysed(f_.qualname)
+    for d, f_, n, why in w.broken:
+        res.ob("R11.6", f"long-time axis handed over unchanged: {d}", False, prog.loc(f_, n))
+        res.violation("R11.6", f"axis-custody|{d.split(':')[-1].strip()[:50]}", prog.loc(f_, n), f_.qualname, f"the long-time ln(t/ts) axis is changed on its way into the g-function object: at '{d}' {why}")
+    producers = set()
+    for kind, text, f_, n in w.sources:
+        ok = kind == "none" or (kind == "chain" and text == "self.gFunction.log_time")
+        if kind == "call":
+            producers.add(text.split("(")[0].split(".")[-1])
+            ok = text.split("(")[0].split(".")[-1] == "eskilson_log_times"
+        res.ob("R11.6", f"origin of the long-time axis: {kind} {text}", ok, prog.loc(f_, n))
+        if not ok:
+            res.violation("R11.6", f"axis-origin|{kind}|{text[:40]}", prog.loc(f_, n), f_.qualname, f"the long-time axis originates from {text} ({kind}), not from the table of Eskilson's log-times")
+    res.count("axis_links", len(seen))
+    if not w.broken:
+        res.floor("axis_links", 5)
+    if "eskilson_log_times" not in producers:
+        if not any(f.rule == "R11.6" for f in res.findings):
+            raise AnalysisError("eskilson_log_times() is not the origin of any long-time axis")
+        return
+    fi = prog.func("ghedesigner.utilities.eskilson_log_times")
+    res.analysed(fi.qualname)
+    rets = [x for x in walk_no_nested(fi.node) if isinstance(x, ast.Return)]
+    tables = []
+    for r_ in rets:
+        v = r_.value
+        if isinstance(v, ast.Name):
+            rr = [s_.value for s_ in walk_no_nested(fi.node) if isinstance(s_, ast.Assign) and len(s_.targets) == 1 and isinstance(s_.targets[0], ast.Name) and s_.targets[0].id == v.id]
+            v = rr[0] if len(rr) == 1 else v
+        if not isinstance(v, (ast.List, ast.Tuple)) or any(_num(e) is None for e in v.elts):
+            raise AnalysisError(f"{fi.qualname}: does not return a literal table of numbers - its order cannot be decided statically")
+        tables.append(([_num(e) for e in v.elts], r_))
+    if not tables:
+        raise AnalysisError(f"{fi.qualname}: no return")
+    for t, r_ in tables:
+        bad = [(i, a, b) for i, (a, b) in enumerate(zip(t, t[1:])) if not a < b]
+        res.ob("R11.6", f"eskilson_log_times(): {len(t)} entries, strictly increasing", not bad and len(t) >= 2, prog.loc(fi, r_))
+        if bad or len(t) < 2:
+            i, a, b = bad[0] if bad else (0, None, None)
+            res.violation("R11.6", f"axis-order|{i}", prog.loc(fi, r_), fi.qualname, f"the long-time ln(t/ts) table is not strictly increasing: entry {i} = {a} is followed by {b}" if bad else "the long-time table has fewer than two entries")
 
 
 def _join_semantic(prog: Program, res: Result) -> bool:
@@ -610,6 +676,12 @@ def _longtime(prog: Program, res: Result):
 
 
 VARIANTS = [
+    Variant("two entries of Eskilson's table exchanged", "break", [("ghedesigner.utilities", "        -3.963,\n        -3.27,\n", "        -3.27,\n        -3.963,\n")], "R11.6"),
+    Variant("a table entry repeated (axis not strictly increasing)", "break", [("ghedesigner.utilities", "        2.275,\n        3.003,\n", "        2.275,\n        2.275,\n        3.003,\n")], "R11.6"),
+    Variant("Eskilson's table returned through a local", "benign", [("ghedesigner.utilities", "    # Return a list of Eskilson's original 27 dimensionless points in time\n    return [", "    # Return a list of Eskilson's original 27 dimensionless points in time\n    log_times = [")
+        , ("ghedesigner.utilities", "        3.003,\n    ]\n", "        3.003,\n    ]\n    return log_times\n")]),
+    Variant("the search drops the last long-time point before building g-functions", "break", [("ghedesigner.search_routines", "            self.bhe_type,\n            self.log_time,\n            coordinates,\n            fluid,\n            pipe,\n            grout,\n            soil,\n        )\n\n        # Initialize the GHE object\n        self.ghe = GHE(\n            v_flow_system,\n            b,\n            bhe_type,", "            self.bhe_type,\n            self.log_time[:-1],\n            coordinates,\n            fluid,\n            pipe,\n            grout,\n            soil,\n        )\n\n        # Initialize the GHE object\n        self.ghe = GHE(\n            v_flow_system,\n            b,\n            bhe_type,")], "R11.6"),
+    Variant("the g-function object keeps its axis as a numpy array", "benign", [(GF, "        self.log_time: list = log_time\n", "        self.log_time: list = np.asarray(log_time)\n")]),
     Variant("heights hoisted and sorted, values still gathered in storage order (seeded C11_c)", "break",
             [(GF, "                x = []\n                y = []\n                for key in self.g_lts:\n                    height_value = float(key)\n                    g_value = self.g_lts[key][i]\n                    x.append(height_value)\n                    y.append(g_value)\n",
               "                y = [self.g_lts[key][i] for key in self.g_lts]\n"),
